@@ -105,7 +105,11 @@ func c19Counters(w *wworld.World) {
 		for _, o := range req.Outputs {
 			d, det := idx[o.B]
 			if det && signed[o.B] {
-				w.Viol("C19", "signed-counter-submitted-again/"+ex.Path, "%s submitted for signing (%s) the output of keyset %s counter %d which it already had signed", w.Wallets[d.Wallet].Name, ex.Path, d.Keyset, d.Counter)
+				sfx := ""
+				if ww := w.Wallets[d.Wallet]; ww.DB != nil && !c19KeysetStored(ww, d.Keyset) {
+					sfx = "/keyset-of-untrusted-mint-not-stored"
+				}
+				w.Viol("C19", "signed-counter-submitted-again/"+ex.Path+sfx, "%s submitted for signing (%s) the output of keyset %s counter %d which it already had signed", w.Wallets[d.Wallet].Name, ex.Path, d.Keyset, d.Counter)
 			}
 		}
 		if ex.Status != 200 {
@@ -143,9 +147,26 @@ func c19Counters(w *wworld.World) {
 			continue
 		}
 		if c := ww.DB.Inner.GetKeysetCounter(ks); c <= mx {
-			w.Viol("C19", "stored-counter-not-past-signed-counter", "%s: stored counter of keyset %s is %d, but counter %d of that keyset has been signed", ww.Name, ks, c, mx)
+			key := "stored-counter-not-past-signed-counter"
+			if !c19KeysetStored(ww, ks) {
+				// the wallet derived outputs for a keyset it keeps no record of (a mint it does not trust): there is no counter
+				// to advance at all
+				key += "/keyset-of-untrusted-mint-not-stored"
+			}
+			w.Viol("C19", key, "%s: stored counter of keyset %s is %d, but counter %d of that keyset has been signed", ww.Name, ks, c, mx)
 		}
 	}
+}
+
+func c19KeysetStored(ww *wworld.WalletW, ks string) bool {
+	for _, l := range ww.DB.Inner.GetKeysets() {
+		for _, k := range l {
+			if k.Id == ks {
+				return true
+			}
+		}
+	}
+	return false
 }
 
 // c19MintSide: value of a seed's deterministic outputs at the mints: sum of amounts of signed outputs whose proof is
@@ -314,6 +335,7 @@ func c19Specs(quick bool) []*wSpec {
 				}, Probe: c19Probe(false), Depth: 2, NoInvariants: true},
 			// more than 200 outputs on ONE keyset (three restore batches), restore, go on, restore again (probe)
 			{Prop: "C19", Name: "C19-three-batches-q", Cfg: two, Init: c19ThreeBatches(), Menu: func(*wworld.World) []string { return nil }, Probe: c19Probe(false), Depth: 0, NoInvariants: true},
+			{Prop: "C19", Name: "C19-crossmint-p2pk-q", Cfg: crossMintCfg, Init: []string{"mint|2|16", "mint|0|8"}, Menu: crossMintP2PKMenu, Probe: c19Probe(false), Depth: 3, NoInvariants: true},
 			{Prop: "C19", Name: "C19-long-q", Cfg: two, Init: c19LongN(11), Menu: func(*wworld.World) []string { return nil }, Probe: c19Probe(false), Depth: 0, NoInvariants: true},
 		}
 	}
@@ -335,6 +357,7 @@ func c19Specs(quick bool) []*wSpec {
 			}
 			return nil
 		}, Probe: c19Probe(false), Depth: 4, NoInvariants: true},
+		{Prop: "C19", Name: "C19-crossmint-p2pk", Cfg: crossMintCfg, Init: []string{"mint|2|16", "mint|0|8"}, Menu: crossMintP2PKMenu, Probe: c19Probe(true), Depth: 4, NoInvariants: true},
 		{Prop: "C19", Name: "C19-long", Cfg: two, Init: c19Long(), Menu: func(*wworld.World) []string { return nil }, Probe: c19Probe(true), Depth: 0, NoInvariants: true},
 	}
 }
